@@ -42,7 +42,7 @@ DEFAULT_CFG = dict(
     import_cycles=True, self_import=0.1, dup_import=0.1, nested_xmlns=0.15, no_tns=0.0,
     adversarial_uris=False, reuse_names=False, shadow_names=0.0,
     ops=(1, 4), p_oneway=0.25, headers=(0, 2), p_parts_attr=0.5, p_part_name_differs=0.5, p_soap_action=0.7,
-    quarantine=(), attr_named_simple=True, default_ns_own=0.1,
+    quarantine=(), attr_named_simple=True, default_ns_own=0.1, avoid_nested_same_name=False,
 )
 
 
@@ -253,6 +253,14 @@ class Gen:
             return ElementRef(TypeRef(g.name.xml, g.file, g), mn, mx)
         nm = self.names.fresh(taken)
         t = self.pick_member_type(fidx)
+        if self.cfg.get("avoid_nested_same_name") and not t.builtin and t.comp.kind == "complex":
+            # yaserde 0.12 misreads a child element that is named like a member of the child's own struct
+            inner = {m["name"].xml for m in flat_members(t.comp)}
+            for _ in range(20):
+                if nm.xml not in inner:
+                    break
+                taken.discard(nm.snake)
+                nm = self.names.fresh(taken)
         if not t.builtin and t.file != fidx:
             self.features.add("member-type-foreign")
         mn, mx = self.occurs()
@@ -285,11 +293,11 @@ class Gen:
             k = r.random()
             if k < 0.3:
                 f.min_inclusive, f.max_inclusive = lo, hi
-            elif k < 0.5:
+            elif k < 0.5 and lo - 1 >= -2**31 and hi + 1 <= 2**31 - 1:     # facet values stay i32 (DESIGN §2.1)
                 f.min_exclusive, f.max_exclusive = lo - 1, hi + 1
             elif k < 0.65:
                 f.min_inclusive = lo
-            elif k < 0.8:
+            elif k < 0.8 and hi + 1 <= 2**31 - 1:
                 f.max_exclusive = hi + 1
         elif ub in STRING_BUILTINS:
             k = r.random()
@@ -363,7 +371,7 @@ class Gen:
             if not t.builtin or "builtin-typed-global-element" not in self.q:
                 self.features.add("typed-global-element" if not t.builtin else "builtin-typed-global-element")
                 return GlobalElement(nm, type=t, file=fidx)
-        content = self.make_content(fidx, set(), allow_empty=False)
+        content = self.make_content(fidx, {nm.snake} if self.cfg.get("avoid_nested_same_name") else set(), allow_empty=False)
         return GlobalElement(nm, content=content, file=fidx, doc=self.doc())
 
     # ------------------------------------------------------------------ whole set
@@ -453,7 +461,8 @@ class Gen:
                 g = self.make_gelement(fidx, tk)
                 clash = any(c.kind != "gelement" and c.name.pascal == g.name.pascal for c in self.files[fidx].components)
                 if not g.anonymous and r.random() < 0.7 and not clash:
-                    g = GlobalElement(g.name, content=self.make_content(fidx, set(), allow_empty=False), file=fidx)
+                    g = GlobalElement(g.name, content=self.make_content(
+                        fidx, {g.name.snake} if self.cfg.get("avoid_nested_same_name") else set(), allow_empty=False), file=fidx)
                 self.created.append(g)
                 self.files[fidx].components.append(g)
                 return g
